@@ -301,7 +301,7 @@ def _mentions(scope, e: ast.AST, dest: str, depth=4) -> bool:
     return False
 
 
-def rule_option_plumbing(ctx, rep: Report, rid="Y3"):
+def rule_option_plumbing(ctx, rep: Report, rid="Y3", only_flags=None):
     prog = ctx.prog
     for which, rel in SCRIPTS.items():
         mi, opts, ctor, scope = _script_info(ctx, rel)
@@ -312,6 +312,8 @@ def rule_option_plumbing(ctx, rep: Report, rid="Y3"):
         init = prog.find_method(cls, "__init__")[1]
         b = bind_call(init, ctor, drop_self=True)
         for flag in sorted(opts):
+            if only_flags is not None and flag not in only_flags:
+                continue
             o = opts[flag]
             loc = f"{rel}:{o['node'].lineno}"
             av = _args_var(scope)
@@ -383,7 +385,7 @@ def rule_option_plumbing(ctx, rep: Report, rid="Y3"):
                     f"{flag} has nargs='*' and no default: when the option is absent argparse yields None, which reaches "
                     f"`cpp_class in self.ignore_classes` (TypeError: argument of type 'NoneType' is not iterable) at the "
                     f"first class", f"{rel}:{o['node'].lineno}")
-    if sum(1 for o in rep.obs if o.rule == rid) < 30:
+    if sum(1 for o in rep.obs if o.rule == rid) < (30 if only_flags is None else 3 * len(only_flags)):
         raise AnalysisError(f"{rep.prop}/{rid}: too few option obligations")
 
 
